@@ -22,6 +22,60 @@ MARKING_IDS = ["marking-definition--613f2e26-407d-48c7-9eca-b8e91df99dc9", "mark
                "marking-definition--3f2504e0-4f89-41d3-9a0c-0305e82c3301"]
 
 
+C13_EXT_OBJ = "extension-definition--a1b2c3d4-0000-4000-8000-00000000d001"
+C13_EXT_SCO = "extension-definition--a1b2c3d4-0000-4000-8000-00000000d002"
+OTHER_EXT = "extension-definition--a1b2c3d4-0000-4000-8000-00000000d003"
+_registered = [False]
+
+
+def ensure_custom():
+    """Harness-registered custom types, among them types whose class injects its own defining extension (extension_name=)."""
+    if _registered[0]:
+        return
+    import stix2
+    from stix2 import properties as P
+
+    @stix2.v21.CustomObject("x-verif-c13obj", [("prop_str", P.StringProperty(required=True)), ("prop_list", P.ListProperty(P.StringProperty))], extension_name=C13_EXT_OBJ)
+    class C13Obj(object):
+        pass
+
+    @stix2.v21.CustomObservable("x-verif-c13sco", [("prop_str", P.StringProperty(required=True)), ("prop_dict", P.DictionaryProperty(spec_version="2.1"))], ["prop_str"],
+                                extension_name=C13_EXT_SCO)
+    class C13Sco(object):
+        pass
+
+    @stix2.v20.CustomObject("x-verif-c13obj20", [("prop_str", P.StringProperty(required=True)), ("prop_list", P.ListProperty(P.StringProperty))])
+    class C13Obj20(object):
+        pass
+    _registered[0] = True
+
+
+def custom_docs(draw):
+    """Documents of the harness types.  `extensions` is present in several shapes: absent, holding only a foreign (unregistered)
+    extension, holding the type's own extension as its serialization spells it, or both."""
+    kind = draw(st.sampled_from(["obj", "obj", "sco", "obj20"]))
+    if kind == "obj20":
+        return "2.0", {"type": "x-verif-c13obj20", "id": "x-verif-c13obj20--3f2504e0-4f89-41d3-9a0c-0305e82c3301", "created": "2020-01-01T00:00:00.000Z",
+                       "modified": "2020-01-02T00:00:00.000Z", "prop_str": "s", "prop_list": ["a", "b"]}
+    own = C13_EXT_OBJ if kind == "obj" else C13_EXT_SCO
+    if kind == "obj":
+        doc = {"type": "x-verif-c13obj", "spec_version": "2.1", "id": "x-verif-c13obj--3f2504e0-4f89-41d3-9a0c-0305e82c3301", "created": "2020-01-01T00:00:00.000Z",
+               "modified": "2020-01-02T00:00:00.000Z", "prop_str": "s", "prop_list": ["a", "b"]}
+        own_body = {"extension_type": "new-sdo"}
+    else:
+        doc = {"type": "x-verif-c13sco", "spec_version": "2.1", "id": "x-verif-c13sco--3f2504e0-4f89-41d3-9a0c-0305e82c3301", "prop_str": "s", "prop_dict": {"k": [1, 2]}}
+        own_body = {"extension_type": "new-sco"}
+    shape = draw(st.sampled_from(["none", "foreign", "foreign", "own", "both"]))
+    ext = {}
+    if shape in ("foreign", "both"):
+        ext[OTHER_EXT] = {"extension_type": "property-extension", "rank": 3, "tags": ["t"]}
+    if shape in ("own", "both"):
+        ext[own] = own_body
+    if shape != "none":
+        doc["extensions"] = ext
+    return "2.1", doc
+
+
 def snap(x):
     return json.dumps(x, sort_keys=True, default=lambda o: "<%s %s>" % (type(o).__name__, o.serialize(include_optional_defaults=True) if hasattr(o, "serialize") else repr(o)))
 
@@ -325,6 +379,7 @@ class Machine(object):
 
 
 def check_case(case):
+    ensure_custom()
     m = Machine(case)
     try:
         for op in case["ops"]:
@@ -350,6 +405,11 @@ def case_strategy(draw):
     n = draw(st.integers(1, 3))
     vers, docs = [], []
     for _ in range(n):
+        if draw(st.integers(0, 5)) == 0:
+            ver, doc = custom_docs(draw)
+            docs.append(doc)
+            vers.append(ver)
+            continue
         ver = draw(st.sampled_from(["2.0", "2.1"]))
         t = draw(st.sampled_from([x for x in G.top_types(ver)]))
         opts = dict(OPTS)
@@ -365,7 +425,8 @@ def case_strategy(draw):
 
 
 def run(ctx):
-    ctx.rule = ("pools of 1-3 generated documents (all types, both versions, nested lists/dicts, extensions) and sequences of 4-9 operations from "
+    ctx.rule = ("pools of 1-3 generated documents (all types, both versions, nested lists/dicts, extensions; one in six a harness-registered custom type, "
+                "incl. types registered with extension_name whose class adds its own extension, with caller-supplied `extensions` in four shapes) and sequences of 4-9 operations from "
                 "a 22-entry catalogue (parse, parse_observable with _valid_refs, constructors with the caller's nested containers and "
                 "custom_properties, Bundle, deepcopy, new_version/revoke on objects and dicts, remove_custom_stix, the six marking functions "
                 "on objects and dicts, serialize, memory/filesystem store add+query, save/load, ObjectFactory with list defaults, "
@@ -377,11 +438,11 @@ def run(ctx):
     def body(case):
         fails = check_case(case)
         depth2 = any(any(isinstance(v, (list, dict)) for v in d.values()) for d in case["docs"])
-        cl = ["op:" + o["op"] for o in case["ops"]] + ["docs:%d" % len(case["docs"]), "containers:" + case.get("mapping_kind", "dict"), "hashes:" + case.get("hash_spelling", "canonical")]
+        cl = ["op:" + o["op"] for o in case["ops"]] + ["custom-type:" + d["type"] for d in case["docs"] if d["type"].startswith("x-verif")] + ["docs:%d" % len(case["docs"]), "containers:" + case.get("mapping_kind", "dict"), "hashes:" + case.get("hash_spelling", "canonical")]
         ctx.note(case, depth2 and len(case["ops"]) >= 3, cl)
         ctx.handle(case, fails)
 
-    core.run_given(ctx, case_strategy(), body, ctx.n(850, 5000), label="c13-main")
+    core.run_given(ctx, case_strategy(), body, ctx.n(1300, 5000), label="c13-main")
 
 
 def replay(case):
